@@ -43,5 +43,26 @@ IncompleteAgreement(calls) ==
 IncompleteNeverParseError(calls) ==
   {i \in 1..Len(calls) : calls[i].inc /\ calls[i].res.outcome = "err" /\ calls[i].res.err[1] = "Parse"}
 
+\* C15, third clause: appending unparsable text after an accepted source leaves the tree, whitespace
+\* aside, unchanged (skel = node kinds and non-whitespace token texts, WhiteSpace subtrees removed)
+JunkDisagreement(strict, junked) ==
+  IF strict.outcome # "ok" THEN {}
+  ELSE {i \in 1..Len(junked) : junked[i].outcome # "ok" \/ junked[i].skel # strict.skel}
+
+\* C14: an untokenisable byte inserted at a token boundary (file f, byte offset off) of an accepted
+\* source makes strict parsing fail with Parse(Some(f', p)), f' = f and p <= off; deleting a closing
+\* bracket or block-closing keyword makes it fail with Parse(_)
+BadByteJudgement(f, off, res) ==
+  IF res.outcome # "err" THEN <<"source with an untokenisable byte is not rejected", res.outcome>>
+  ELSE IF res.err[1] # "Parse" THEN <<"rejection is not Error::Parse", ToString(res.err)>>
+  ELSE IF res.err[2] = <<>> THEN <<"Error::Parse without location">>
+  ELSE IF res.err[2][1][1] # f THEN <<"Error::Parse names another file than the one holding the byte", res.err[2][1][1], f>>
+  ELSE IF res.err[2][1][2] > off THEN <<"Error::Parse located after the byte", ToString(res.err[2][1][2]), ToString(off)>>
+  ELSE <<>>
+DeletionJudgement(res) ==
+  IF res.outcome # "err" THEN <<"source with a deleted closing delimiter is not rejected", res.outcome>>
+  ELSE IF res.err[1] # "Parse" THEN <<"rejection is not Error::Parse", ToString(res.err)>>
+  ELSE <<>>
+
 Typed(calls) == {i \in 1..Len(calls) : calls[i].res.outcome \notin Outcomes}
 =============================================================================
